@@ -118,7 +118,7 @@ class Run:
                 continue
             tid, s, l, d = M.edges[e]
             role, A, j = M.auts[tid]
-            tr.append([role if j is None else "job%d" % j, [" ".join(map(str, x)) for x in l]])
+            tr.append([role if j is None else "job%d" % j[0], [" ".join(map(str, x)) for x in l]])
         ev = lambda x: str(m.eval(x, model_completion=True))
         return dict(scenario=dict(sets=ev(M.K), reader_error=ev(M.ENDERR), reader_init_fails=ev(M.RIFAIL), dataset_init_fails_at_call=ev(M.DIFAIL)),
                     steps=tr, last_state={k: ev(v) for k, v in self.S[upto].items() if k in ("ndeliv", "nerrdeliv", "created", "nfill", "panic", "sawnone", "dup", "badpair", "badorder", "qD_len", "qE_len", "sD", "rD", "sE", "rE", "pc0", "pc1")})
@@ -286,7 +286,7 @@ def main():
         for (QL, NTHR, KMAX, D) in CONFIGS[tier]:
             run = Run(mir, QL, NTHR, KMAX, D)
             funcs = run.ex.functions_encoded
-            states += run.main.n + run.reader.n + run.job.n
+            states += run.main.n + run.reader.n + sum(a.n for a in getattr(run.job, 'kinds', [run.job]))
             transitions += run.M.E
             # the depth bound must be sufficient: checked for every property, not only C08
             nval, badtr = validate_translation(run)
